@@ -1583,10 +1583,13 @@ func resolveVar(computed map[string]pr.RawTokens, token Token, visiting utils.Se
 	variableName := args[0].(pa.Ident).Value
 	// the default value is everything after the first comma: the commas it
 	// contains are part of it (ParseFunction drops them)
-	var default_ []Token
+	var (
+		default_   []Token
+		hasDefault bool // the default value may be empty: var(--a,)
+	)
 	for i, argument := range fn.Arguments {
 		if pa.IsLiteral(argument, ",") {
-			default_ = pa.RemoveWhitespace(fn.Arguments[i+1:])
+			default_, hasDefault = pa.RemoveWhitespace(fn.Arguments[i+1:]), true
 			break
 		}
 	}
@@ -1602,7 +1605,7 @@ func resolveVar(computed map[string]pr.RawTokens, token Token, visiting utils.Se
 			defer delete(visiting, variableName)
 		}
 	}
-	if len(default_) != 0 {
+	if hasDefault {
 		sources = append(sources, default_)
 	}
 
